@@ -24,6 +24,7 @@ def run(ctx):
     ctx.guarded("R-C15-oneshot", oneshot, ctx, prog)
     ctx.guarded("R-C15-window", window, ctx, prog)
     ctx.guarded("R-C15-expiry", reads_do_not_age, ctx, prog)
+    ctx.guarded("R-C15-oneshot", unsubscribed_means_new_again, ctx, prog)
     ctx.guarded("R-C15-match", matchroles.check, ctx, "R-C15-match", prog, r"^router::logs::DataLog::read_retained_messages$", "retained replay for a new subscription")
 
 
@@ -271,3 +272,14 @@ def reads_do_not_age(ctx, prog):
                           "the sweep in read_retained_messages writes into %s of the STORED retained message (remaining = interval − age) while its timestamp stays the arrival time: every later read — any new subscription on any filter — subtracts the whole age again, "
                           "so the message is discarded well before its message-expiry interval has passed and the next new subscription does not get it" % sorted(written),
                           site=cb.loc(st.get("sp")))
+
+
+def unsubscribed_means_new_again(ctx, prog):
+    """'new subscription or repeat' is decided by connection.subscriptions.insert(): a subscription made after an
+    UNSUBSCRIBE is new again (and replays retained messages) only if the UNSUBSCRIBE took the filter out of that set —
+    shared with R-C01-unsubscribe"""
+    from . import c01
+    from .common import Relabel
+    view = Relabel(ctx, "R-C15-oneshot", lambda fn, inst: "connection.subscriptions" in inst)
+    c01.unsubscribe(view, prog)
+    ctx.floor("R-C15-oneshot", "verdicts about UNSUBSCRIBE removing the filter from connection.subscriptions", view.kept, 1)
